@@ -81,18 +81,23 @@ class C13(Prop):
     id = "C13"
     lean_modules = ["PkgProofs.Props.C13"]
     generated = ["NameValidRx", "NormalizedRx", "NameTables"]
-    theorems = []
+    theorems = ["C13.tables_as_modelled", "C13.canon_is_fold", "C13.canon_idem", "C13.canon_eq_iff_fold_eq",
+                "C13.runs_are_maximal", "C13.runs_collapsed",
+                "C13.valid_classes_verified", "C13.normalized_classes_verified", "C13.validate_cert", "C13.valid_sim",
+                "C13.normalized_sim", "C13.validate_language", "C13.validName_iff_spec", "C13.validate_accepts_iff",
+                "C13.normalized_iff_valid_fixed_point", "C13.normalized_iff_spec", "C13.canon_of_valid_is_normalized",
+                "Names.tableOk_true", "Names.lower_idem", "Rx.accepts_eq_runK", "Rx.simulates_sound", "Rx.equiv1_sound"]
     rule = ("names = every string over the seven-class partition (lower-alnum, '-', '_', '.', upper, newline, other; "
             "representative drawn per position) up to length 5 (quick) / 7 (thorough), plus random longer names built "
             "from words and separator runs with edge runs, trailing newlines, '--' at every position and non-ASCII "
             "characters; observables canonicalize_name(n), canonicalize_name(n, validate=True) or InvalidName, "
             "is_normalized_name(n); the Python oracles of the laws are compared with the Lean spec on the same inputs; "
             "non-trivial = the name is accepted by validate=True")
-    trusted = ["str.lower: per-code-point table regenerated from the running interpreter; the context-dependent final "
-               "form of U+03A3 is outside the model (inputs containing it are not generated)",
-               "the hand-written matcher for _normalized_regex (look-ahead inside a repetition is outside the translator's "
-               "fragment): tied by exhaustive correspondence over the character partition and by a theorem pinning the pattern text"]
-    partial = []
+    trusted = ["str.lower: per-code-point table regenerated from the running interpreter (checked entry by entry in Lean for "
+               "idempotence); the call sites (.match, .sub('-', ...), .lower()) are hand-modelled and tied by correspondence",
+               "CPython re: structural semantics of concatenation/alternation/repetition and of the anchors (atoms are measured)"]
+    partial = ["the context-dependent final form of U+03A3 (GREEK CAPITAL SIGMA -> final sigma) is outside the model of str.lower: "
+               "the folding theorems are about the per-code-point table; inputs containing U+03A3 are not generated by the correspondence"]
     budget = {"quick": (26000, 6000), "thorough": (1040000, 120000)}
 
     def _exhaustive(self, rng, maxlen):
